@@ -414,6 +414,9 @@ def is_features_concatenate(n: fx.Node, parent: fx.GraphModule) -> bool:
     :rtype: bool
     """
     dim = try_get_args(n, parent, 1, 'dim', 0)
+    # the features axis can also be spelled with a negative index (e.g., -2 for a 3D tensor)
+    if isinstance(dim, int) and dim < 0 and 'tensor_meta' in n.meta:
+        dim += len(n.meta['tensor_meta'].shape)
     if n.op == 'call_function' and n.target == torch.cat and dim == 1:
         return True
     return False
